@@ -73,6 +73,44 @@ static std::string freshOracle(const RSModel& m) {
   return "1";
 }
 
+// structure data must only mention elements that exist in the current interpretation of the base sets
+static bool elementsValid(const RSModel& m, const object::StructuredData& data, const rslang::Typification& type) {
+  using rslang::StructureType;
+  switch (type.Structure()) {
+  default:
+  case StructureType::basic: {
+    if (type == rslang::Typification::Integer()) return true;
+    const auto base = m.Core().FindAlias(type.E().baseID);
+    if (!base.has_value()) return false;
+    if (m.GetRS(base.value()).type == CstType::constant) return true;
+    const auto* text = m.Values().TextFor(base.value());
+    return text != nullptr && data.IsElement() && text->HasInterpretantFor(data.E().Value());
+  }
+  case StructureType::collection: {
+    if (!data.IsCollection()) return false;
+    for (const auto& el : data.B()) if (!elementsValid(m, el, type.B().Base())) return false;
+    return true;
+  }
+  case StructureType::tuple: {
+    if (!data.IsTuple() || data.T().Arity() != type.T().Arity()) return false;
+    for (auto i = rslang::Typification::PR_START; i < type.T().Arity() + rslang::Typification::PR_START; ++i)
+      if (!elementsValid(m, data.T().Component(i), type.T().Component(i))) return false;
+    return true;
+  }
+  }
+}
+static std::string structOracle(const RSModel& m) {
+  for (const auto uid : m.Core()) {
+    if (m.GetRS(uid).type != CstType::structured) continue;
+    const auto data = m.Values().SDataFor(uid);
+    if (!data.has_value()) continue;
+    const auto* typ = m.GetParse(uid).Typification();
+    if (typ == nullptr) continue;   // no typification now: judged as soon as it is typed again
+    if (!elementsValid(m, data.value(), *typ)) return "0:" + m.GetRS(uid).alias + "_holds_" + noSpace(data->ToString());
+  }
+  return "1";
+}
+
 static const char* kindName(CstType t) { return t == CstType::base ? "base" : "term"; }
 
 static TextInterpretation textOf(const std::vector<int>& keys) {
@@ -176,6 +214,19 @@ static void generalHistory(vh::Rng& rng, int L) {
                                        CstType::function, CstType::theorem };
   std::vector<uint32_t> known;
   auto pickUid = [&]() -> uint32_t { return (!known.empty() && rng.chance(19, 20)) ? rng.pick(known) : static_cast<uint32_t>(rng.range(1, 9)); };
+  if (rng.chance(1, 2)) {
+    // a populated start: base set with elements, a structure with data over it, a term over the structure
+    const auto x = m.Emplace(CstType::base); known.push_back(x);
+    for (int k = 0; k < 3; ++k) m.Values().AddBasicElement(x, "p" + std::to_string(k));
+    const auto st = m.Emplace(CstType::structured, BOOL + "(" + m.GetRS(x).alias + TIMES + m.GetRS(x).alias + ")"); known.push_back(st);
+    auto data = object::Factory::EmptySet();
+    data.ModifyB().AddElement(object::Factory::Tuple({ object::Factory::Val(2), object::Factory::Val(3) }));
+    m.Values().SetStructureData(st, data);
+    known.push_back(m.Emplace(CstType::term, "Pr1(" + m.GetRS(st).alias + ")"));
+    m.Calculations().RecalculateAll();
+    emit("c11 freshimpl prefix", freshOracle(m));
+    emit("c11 structvalid prefix", structOracle(m));
+  }
   for (int i = 0; i < L; ++i) {
     const int r = rng.range(0, 99);
     std::string what;
@@ -186,6 +237,14 @@ static void generalHistory(vh::Rng& rng, int L) {
       else if (!IsBaseSet(t)) def = rng.pick(defs);
       known.push_back(m.Emplace(t, def)); what = "emplace";
     } else if (r < 29) { m.Erase(pickUid()); what = "erase"; }
+    else if (r < 31) { known.push_back(m.Emplace(CstType::base)); what = "emplacebase"; }
+    else if (r < 34) {
+      // erase a base set and let a new one take the freed alias
+      std::vector<uint32_t> bases;
+      for (const auto uid : m.Core()) if (m.GetRS(uid).type == CstType::base) bases.push_back(uid);
+      if (!bases.empty()) { m.Erase(rng.pick(bases)); known.push_back(m.Emplace(CstType::base)); }
+      what = "rebase";
+    }
     else if (r < 42) { m.SetExpressionFor(pickUid(), rng.pick(defs)); what = "setexpr"; }
     else if (r < 47) {
       const auto uid = pickUid();
@@ -226,6 +285,7 @@ static void generalHistory(vh::Rng& rng, int L) {
     else if (r < 92) { m.Calculations().Calculate(pickUid()); what = "calc"; }
     else { m.Calculations().RecalculateAll(); what = "recalc"; }
     emit("c11 freshimpl " + what, freshOracle(m));
+    emit("c11 structvalid " + what, structOracle(m));
   }
 }
 
